@@ -7,7 +7,12 @@
 
    Abstraction: a hook / callback is a truthy token or None (callback = 1, error callback
    = 2: the token tells the modelled safe_apply_callback which one it was given); the cache
-   entry and the event are ghost booleans. *)
+   entry and the event are ghost booleans.
+
+   Hook point: the generated hooks of _ack (timeout hook, accept callback) set the handle's
+   _cancelled flag under the oracle g_late_cancel (a _cancel() that lands while they run);
+   gen_p_ack quantifies over it, so a reading of the flag made after a hook is part of the
+   compared behaviour, and gen_ack_reads_flag_once pins the number of readings to one. *)
 From Coq Require Import ZArith List Bool Lia ZifyBool.
 From BV Require Import Lib.PyVal Model.Worker Proofs.WorkerProofs.
 From BV Require Gen.K_workerparent.
@@ -18,11 +23,11 @@ Module K := K_workerparent.
 
 Definition tok (b : bool) (z : Z) : pv := if b then PInt z else PNone.
 
-Definition emb (pc : pcfg) (s : ar) (cb_raises : bool) (job : Z) (succ value : pv) : K.st :=
+Definition emb (pc : pcfg) (s : ar) (cb_raises late_cancel : bool) (job : Z) (succ value : pv) : K.st :=
   K.mk_st (PBool (cancelled s)) (tok (has_send_ack pc) 1) (PBool (accepted s))
           (optv (time_accepted s)) (optv (worker_pid s)) (PInt 1) (tok (has_accept_cb pc) 1)
           (PInt 1) (tok (has_callback pc) 1) (tok (has_error_cb pc) 2) succ value (PInt job)
-          (is_ready s) (in_cache s) cb_raises false [].
+          (is_ready s) (in_cache s) cb_raises false [] late_cancel.
 
 Definition unoptv (v : pv) : option Z := match v with PInt z => Some z | _ => None end.
 
@@ -48,29 +53,34 @@ Definition view {A} (o : outcome K.st A) : ar * list pout :=
   (abs (final o), flat_map pout_of (K.g_out (final o))).
 
 (* ApplyResult._ack (under on_ack, which has found the handle in the cache) *)
-Theorem gen_p_ack : forall pc s i t pid fd r job su va,
+Theorem gen_p_ack : forall pc s i t pid fd r lc job su va,
     in_cache s = true ->
-    let o := K.ack (emb pc s r job su va) i (PInt t) (PInt pid) (optv fd) in
-    view o = p_ack pc s t pid fd r /\
+    let o := K.ack (emb pc s r lc job su va) i (PInt t) (PInt pid) (optv fd) in
+    view o = p_ack pc s t pid fd r lc /\
     raised o = negb (cancelled s && has_send_ack pc) && has_accept_cb pc && r /\
     (raised o = true -> K.g_attr_error (final o) = true).
 Proof.
-  intros [hs ha hc he hk] [acc can wp ta rdy ic] i t pid fd r job su va Hic.
+  intros [hs ha hc he hk] [acc can wp ta rdy ic] i t pid fd r lc job su va Hic.
   cbn [in_cache] in Hic. subst ic.
-  destruct fd as [[|p|p]|]; destruct can, ha, rdy, hc, r, wp, ta; vm_compute;
+  destruct fd as [[|p|p]|]; destruct can, ha, rdy, hc, r, lc, wp, ta; vm_compute;
     (split; [reflexivity|split; [reflexivity|intros H; try reflexivity; discriminate H]]).
 Qed.
 
 (* ApplyResult._set (under on_ready, which has found the handle in the cache) *)
 Theorem gen_p_set : forall pc s i ok v job su va,
     in_cache s = true ->
-    let o := K.set (emb pc s false job su va) i (PBool ok) (PInt v) in
+    let o := K.set (emb pc s false false job su va) i (PBool ok) (PInt v) in
     view o = p_set pc s ok v /\ raised o = false.
 Proof.
   intros [hs ha hc he hk] [acc can wp ta rdy ic] i ok v job su va Hic.
   cbn [in_cache] in Hic. subst ic.
   destruct rdy, acc, can, hk, he, ok, wp, ta; vm_compute; (split; reflexivity).
 Qed.
+
+(* _ack reads the cancellation flag exactly once (counted in pool.py on this run): its
+   decision and its answer cannot be about two different values of the flag *)
+Lemma gen_ack_reads_flag_once : K.ack_cancelled_reads = 1%nat.
+Proof. reflexivity. Qed.
 
 (* what plain billiard gives: handles get send_ack exactly under the synack switch, that
    send_ack is a no-op and the workers get no SYN queue (text-compared on this run) *)
